@@ -36,12 +36,16 @@ impl KeyBuilder for TableKB {
     {
         raw_of(key) & 0xFFFF_FFFF
     }
-    fn hash_conflict<Q>(&self, key: &Q) -> u64
+    // hash_conflict is left at the trait's default (0): like a one-pass (Ristretto KeyToHash style)
+    // builder, build_key is the authoritative mapping; a code path that hashes index and conflict
+    // separately instead of calling build_key sees the wildcard conflict 0 and shows up at once
+    fn build_key<Q>(&self, key: &Q) -> (u64, u64)
     where
         Self::Key: core::borrow::Borrow<Q>,
         Q: Hash + Eq + ?Sized,
     {
-        raw_of(key) >> 32
+        let r = raw_of(key);
+        (r & 0xFFFF_FFFF, r >> 32)
     }
 }
 
@@ -443,36 +447,72 @@ impl Case {
             let (tx, rx) = async_channel::unbounded();
             verif::set_async_ticker(Some(rx));
             async_tick = Some(tx);
-            let c = AsyncCacheBuilder::new_with_key_builder(cfg.ctrs, cfg.max_cost, TableKB)
-                .set_coster(Co(cfg.coster))
-                .set_update_validator(Va(cfg.validator))
-                .set_callback(cb.clone())
-                .set_buffer_size(cfg.buf_cap)
-                .set_buffer_items(cfg.buffer_items)
-                .set_metrics(cfg.metrics)
-                .set_ignore_internal_cost(cfg.ignore_internal)
-                .set_cleanup_duration(Duration::from_secs(3600))
-                .set_hasher(SeedBH(cfg.seeds[0]))
-                .finalize(spawner)
-                .map_err(|e| format!("{:?}", e))?;
+            // the builder's setters in two orders (the type-changing ones rebuild the builder field by
+            // field: whatever was set before them must survive)
+            let c = if cfg.seeds[1] % 2 == 0 {
+                AsyncCacheBuilder::new_with_key_builder(cfg.ctrs, cfg.max_cost, TableKB)
+                    .set_coster(Co(cfg.coster))
+                    .set_update_validator(Va(cfg.validator))
+                    .set_callback(cb.clone())
+                    .set_buffer_size(cfg.buf_cap)
+                    .set_buffer_items(cfg.buffer_items)
+                    .set_metrics(cfg.metrics)
+                    .set_ignore_internal_cost(cfg.ignore_internal)
+                    .set_cleanup_duration(Duration::from_secs(3600))
+                    .set_hasher(SeedBH(cfg.seeds[0]))
+                    .finalize(spawner)
+            } else {
+                AsyncCache::<u64, u64>::builder(7, 7)
+                    .set_num_counters(cfg.ctrs)
+                    .set_max_cost(cfg.max_cost)
+                    .set_buffer_size(cfg.buf_cap)
+                    .set_buffer_items(cfg.buffer_items)
+                    .set_metrics(cfg.metrics)
+                    .set_ignore_internal_cost(cfg.ignore_internal)
+                    .set_cleanup_duration(Duration::from_secs(3600))
+                    .set_key_builder(TableKB)
+                    .set_hasher(SeedBH(cfg.seeds[0]))
+                    .set_callback(cb.clone())
+                    .set_update_validator(Va(cfg.validator))
+                    .set_coster(Co(cfg.coster))
+                    .finalize(spawner)
+            }
+            .map_err(|e| format!("{:?}", e))?;
             verif::set_seeds_async(&c, cfg.seeds);
             CK::A(c)
         } else {
             let (tx, rx) = crossbeam_channel::unbounded();
             verif::set_sync_ticker(Some(rx));
             sync_tick = Some(tx);
-            let c = CacheBuilder::new_with_key_builder(cfg.ctrs, cfg.max_cost, TableKB)
-                .set_coster(Co(cfg.coster))
-                .set_update_validator(Va(cfg.validator))
-                .set_callback(cb.clone())
-                .set_buffer_size(cfg.buf_cap)
-                .set_buffer_items(cfg.buffer_items)
-                .set_metrics(cfg.metrics)
-                .set_ignore_internal_cost(cfg.ignore_internal)
-                .set_cleanup_duration(Duration::from_secs(3600))
-                .set_hasher(SeedBH(cfg.seeds[0]))
-                .finalize()
-                .map_err(|e| format!("{:?}", e))?;
+            let c = if cfg.seeds[1] % 2 == 0 {
+                CacheBuilder::new_with_key_builder(cfg.ctrs, cfg.max_cost, TableKB)
+                    .set_coster(Co(cfg.coster))
+                    .set_update_validator(Va(cfg.validator))
+                    .set_callback(cb.clone())
+                    .set_buffer_size(cfg.buf_cap)
+                    .set_buffer_items(cfg.buffer_items)
+                    .set_metrics(cfg.metrics)
+                    .set_ignore_internal_cost(cfg.ignore_internal)
+                    .set_cleanup_duration(Duration::from_secs(3600))
+                    .set_hasher(SeedBH(cfg.seeds[0]))
+                    .finalize()
+            } else {
+                Cache::<u64, u64>::builder(7, 7)
+                    .set_num_counters(cfg.ctrs)
+                    .set_max_cost(cfg.max_cost)
+                    .set_buffer_size(cfg.buf_cap)
+                    .set_buffer_items(cfg.buffer_items)
+                    .set_metrics(cfg.metrics)
+                    .set_ignore_internal_cost(cfg.ignore_internal)
+                    .set_cleanup_duration(Duration::from_secs(3600))
+                    .set_key_builder(TableKB)
+                    .set_hasher(SeedBH(cfg.seeds[0]))
+                    .set_callback(cb.clone())
+                    .set_update_validator(Va(cfg.validator))
+                    .set_coster(Co(cfg.coster))
+                    .finalize()
+            }
+            .map_err(|e| format!("{:?}", e))?;
             verif::set_seeds(&c, cfg.seeds);
             CK::S(c)
         };
